@@ -40,8 +40,6 @@ families above fire in every run, "caught" = additional families), all in _netwo
 
 from __future__ import annotations
 
-import itertools
-
 from mc.explorer import Result
 from mc.ref import route as RR
 
